@@ -293,7 +293,32 @@ def check_recursion(run, rule, reach, cg, mains):
                         bp = path(bound) if bound else None
                         consts = []
                         finite = False
-                        if bp and len(bp) == 1:
+
+                        def value_set(e_, depth=0):
+                            """finite set of constants an expression can take (constants, ?: of such, + - * of such)"""
+                            u_ = ir.unwrap_all_casts(e_)
+                            if not isinstance(u_, dict) or depth > 8:
+                                return None
+                            cv_ = const_value(e_)
+                            if cv_ is None:
+                                cv_ = const_value(u_)
+                            if cv_ is not None and not isinstance(cv_, str):
+                                return {int(cv_)}
+                            if u_.get("k") == "Cond":
+                                a_, b_ = value_set(u_.get("a"), depth + 1), value_set(u_.get("b"), depth + 1)
+                                return (a_ | b_) if a_ is not None and b_ is not None else None
+                            if u_.get("k") == "Bin" and u_.get("op") in ("+", "-", "*"):
+                                a_, b_ = value_set(u_.get("lhs"), depth + 1), value_set(u_.get("rhs"), depth + 1)
+                                if a_ is None or b_ is None or len(a_) * len(b_) > 64:
+                                    return None
+                                f_ = {"+": lambda x, y: x + y, "-": lambda x, y: x - y, "*": lambda x, y: x * y}[u_["op"]]
+                                return set(f_(x, y) for x in a_ for y in b_)
+                            return None
+                        vs = value_set(bound) if bound is not None else None
+                        if vs is not None:
+                            finite = all(0 <= x <= 65536 for x in vs)
+                            consts = sorted(vs)
+                        elif bp and len(bp) == 1:
                             vals = []
                             for x in ir.walk(f["body"]):
                                 if x.get("k") == "Bin" and x.get("op") == "=" and path(x["lhs"]) == bp:
